@@ -66,3 +66,26 @@ pub proof fn lemma_pok_eq_iff2(u: Sig, v: Sig, pk: Pk, y: Scalar, m: Seq<u8>, d:
     assert(pk_of(1).dl() == 1);
     lemma_mul_one(v.dl());
 }
+
+/// (a + b) + (c + d) == (a + c) + (b + d)      (explicit steps: no ring broadcast, stable)
+pub proof fn lemma_add_swap4(a: int, b: int, c: int, d: int)
+    ensures fadd(fadd(a, b), fadd(c, d)) == fadd(fadd(a, c), fadd(b, d))
+{
+    lemma_add_assoc(a, b, fadd(c, d));
+    lemma_add_assoc(b, c, d);
+    lemma_add_comm(b, c);
+    lemma_add_assoc(c, b, d);
+    lemma_add_assoc(a, c, fadd(b, d));
+}
+/// -(p + q) == -p + -q
+pub proof fn lemma_neg_add(p: int, q: int)
+    requires inr(p), inr(q),
+    ensures fneg(fadd(p, q)) == fadd(fneg(p), fneg(q))
+{
+    lemma_add_swap4(p, q, fneg(p), fneg(q));
+    lemma_add_neg(p); lemma_add_neg(q);
+    lemma_add_zero(0);
+    lemma_range_add(p, q); lemma_range_neg(p); lemma_range_neg(q); lemma_range_add(fneg(p), fneg(q));
+    axiom_r_gt_1();
+    lemma_neg_unique(fadd(p, q), fadd(fneg(p), fneg(q)));
+}
